@@ -117,7 +117,7 @@ def detect(i, pids=None):
         if pid not in claimed:
             det[pid] = 'not claimed'
             continue
-        env = dict(os.environ, VERIF_REPO=wt)
+        env = dict(os.environ, VERIF_REPO=wt, VERIF_EVIDENCE_DIR='/tmp/mutdt/evidence', VERIF_REPLAY_DIR='/tmp/mutdt/replays')
         t = time.time()
         rc, out = sh('./check %s --tier quick' % pid, cwd=ROOT, env=env, timeout=3000)
         v = [l for l in out.splitlines() if l.startswith('VIOLATION')]
